@@ -56,6 +56,7 @@ type FC struct {
 	phiIdx   map[*ssa.Phi]int
 	cellMemo map[cellBlock]*RF
 	cellBusy map[cellBlock]bool
+	bindArgs []*RF // actual arguments of an inlined instance: its loop-carried atoms are applications to them
 }
 
 type cellKey struct {
@@ -638,7 +639,11 @@ type cellBlock struct {
 }
 
 func (fc *FC) memphi(c cellKey, cellType types.Type, b *ssa.BasicBlock) *RF {
-	return fc.X.S.Var(fmt.Sprintf("memphi:%s:%s.%d@%d", fc.X.W.FuncName(fc.Fn), c.base.Name(), c.field, b.Index), isIntType(cellTypeField(cellType, c.field)))
+	name := fmt.Sprintf("memphi:%s:%s.%d@%d", fc.X.W.FuncName(fc.Fn), c.base.Name(), c.field, b.Index)
+	if len(fc.bindArgs) > 0 {
+		return fc.X.S.Fn(name, fc.bindArgs...)
+	}
+	return fc.X.S.Var(name, isIntType(cellTypeField(cellType, c.field)))
 }
 
 func (fc *FC) cellAtEntry(c cellKey, cellType types.Type, b *ssa.BasicBlock) *RF {
@@ -1129,7 +1134,15 @@ func (fc *FC) phi(p *ssa.Phi) *RF {
 			isHeader = true
 		}
 	}
-	atom := s.Var(fmt.Sprintf("phi:%s:%d", fc.X.W.FuncName(fc.Fn), fc.phiIdx[p]), isIntType(p.Type()))
+	var atom *RF
+	if len(fc.bindArgs) > 0 {
+		atom = s.Fn(fmt.Sprintf("phi:%s:%d", fc.X.W.FuncName(fc.Fn), fc.phiIdx[p]), fc.bindArgs...)
+		if isIntType(p.Type()) {
+			atom.SingleAtom().Int = true
+		}
+	} else {
+		atom = s.Var(fmt.Sprintf("phi:%s:%d", fc.X.W.FuncName(fc.Fn), fc.phiIdx[p]), isIntType(p.Type()))
+	}
 	fc.X.phiOf[atom.SingleAtom().ID] = p
 	fc.X.phiFC[atom.SingleAtom().ID] = fc
 	if isHeader {
@@ -1249,9 +1262,20 @@ func (x *Extractor) inline(f *ssa.Function, args []*RF, parent *FC) *RF {
 	if f.Blocks == nil || len(f.Blocks) > x.MaxInlineBlocks || x.depth[f] > 0 || len(args) != len(f.Params) {
 		return nil
 	}
-	// only value-returning helpers: a pointer/slice/func result denotes memory, not a formula
-	if res := f.Signature.Results(); res.Len() == 0 || ptrLike(res) {
+	// only value-returning helpers: a pointer/slice/map/func result denotes memory, not a formula
+	// (interface results such as error values are fine)
+	res := f.Signature.Results()
+	if res.Len() == 0 {
 		return nil
+	}
+	for i := 0; i < res.Len(); i++ {
+		t := res.At(i).Type()
+		if _, isIface := t.Underlying().(*types.Interface); isIface {
+			continue
+		}
+		if ptrLike(t) {
+			return nil
+		}
 	}
 	x.depth[f]++
 	defer func() { x.depth[f]-- }()
@@ -1261,8 +1285,29 @@ func (x *Extractor) inline(f *ssa.Function, args []*RF, parent *FC) *RF {
 	}
 	fc := x.newFC(f, bind, nil)
 	fc.Parent = parent
+	fc.bindArgs = args
 	if len(fc.Ctx.Loops()) > 0 {
-		return nil
+		// a helper containing loops is inlined when it has a single return:
+		// its result is expressed through the helper's own loop-carried
+		// atoms (keyed by the actual arguments), whose recurrences remain
+		// available to the caller's obligations
+		if x.Eff != nil {
+			if sum := x.Eff.Summary(f); sum != nil && len(sum.Writes) > 0 {
+				return nil
+			}
+		}
+		rets := fc.Ctx.Returns()
+		if len(rets) != 1 {
+			return nil
+		}
+		if len(rets[0].Results) == 1 {
+			return fc.Val(rets[0].Results[0])
+		}
+		rs := make([]*RF, len(rets[0].Results))
+		for i, rr := range rets[0].Results {
+			rs[i] = fc.Val(rr)
+		}
+		return x.S.MakeFn("tuple", rs...)
 	}
 	// effects: only pure helpers are inlined (no stores to non-local memory)
 	if x.Eff != nil {
